@@ -41,6 +41,24 @@ pub struct Scenario {
     pub crashes: Vec<(u32, usize)>,
     /// step mode: number of steps to drive
     pub steps: u32,
+    /// Some: the bounce family instead (one host h0 restarted by Sim::bounce, plus one client)
+    #[serde(default)]
+    pub bounce: Option<BounceSpec>,
+}
+
+/// Host h0: its first incarnation binds UDP port 9000 in a spawned task that lives on, keeps a
+/// background ticker, and either never finishes or returns Ok at `first_ok_at_us`. Before step
+/// `bounce_before_step` the host is (optionally crashed and) bounced; the restarted software binds the
+/// same port again in its main future and then meets `second` at `second_at_us` after its start.
+/// A client finishes Ok at `client_at_us`. Sim::step is driven by hand.
+#[derive(Clone, Debug, Serialize, Deserialize)]
+pub struct BounceSpec {
+    pub first_ok_at_us: Option<u64>,
+    pub crash_first: bool,
+    pub bounce_before_step: u32,
+    pub second: FateKind,
+    pub second_at_us: u64,
+    pub client_at_us: u64,
 }
 
 pub struct C11;
@@ -234,6 +252,20 @@ impl Property for C11 {
         }
         .max(1);
         cfg.duration_ms = dur_ms;
+        if rng.chance(1, 6) {
+            cfg.duration_ms = 3_600_000;
+            let steps = rng.range(8, 30) as u32;
+            let b = rng.range(2, steps as u64 - 3) as u32;
+            let spec = BounceSpec {
+                first_ok_at_us: if rng.chance(1, 2) { Some(rng.range(1, (b as u64 + 2) * tick_ms.max(1)) * 1000) } else { None },
+                crash_first: rng.chance(1, 2),
+                bounce_before_step: b,
+                second: *rng.pick(&[FateKind::Ok, FateKind::Never, FateKind::Err, FateKind::Panic, FateKind::PanicSpawned, FateKind::PanicTokioSpawned]),
+                second_at_us: rng.range(1, ((steps - b) as u64).max(2) * tick_ms.max(1)) * 1000,
+                client_at_us: rng.range(1, steps as u64 * tick_ms.max(1)) * 1000,
+            };
+            return Scenario { cfg, parties: vec![], run_mode: false, crashes: vec![], steps, bounce: Some(spec) };
+        }
         let run_mode = rng.chance(2, 3);
         let n = rng.usize(0, 5);
         let mut parties = Vec::new();
@@ -270,10 +302,13 @@ impl Property for C11 {
                 }
             }
         }
-        Scenario { cfg, parties, run_mode, crashes, steps }
+        Scenario { cfg, parties, run_mode, crashes, steps, bounce: None }
     }
 
     fn run(sc: &Scenario, keep: bool) -> Report {
+        if let Some(b) = &sc.bounce {
+            return run_bounce(sc, b, keep);
+        }
         let n = sc.parties.len();
         let sh = Shared {
             log: SharedLog::new(keep),
@@ -328,8 +363,8 @@ impl Property for C11 {
                     .collect();
                 let r = catch(|| sim.run());
                 let (got, detail) = classify(&r);
-                // a step that ends with a client/host error returns before the clock is advanced
-                let got_steps = us(sim.elapsed()) / tick + matches!(got, Outcome::ErrParty(_)) as u64;
+                // every call to step advances the clock by one tick, also the one that reports an error (C05)
+                let got_steps = us(sim.elapsed()) / tick;
                 sh.log.ev(format!("run#{ph} -> {:?} after {} steps ({detail}); reference allows {:?}", got, got_steps, possible));
                 outcome_tag = format!("{:?}", got).chars().take(6).collect();
                 steps_taken = got_steps;
@@ -483,6 +518,20 @@ impl Property for C11 {
 
     fn shrink(sc: &Scenario) -> Vec<Scenario> {
         let mut out = Vec::new();
+        if let Some(b) = &sc.bounce {
+            if b.crash_first {
+                out.push(Scenario { bounce: Some(BounceSpec { crash_first: false, ..b.clone() }), ..sc.clone() });
+            }
+            if b.first_ok_at_us.is_some() {
+                out.push(Scenario { bounce: Some(BounceSpec { first_ok_at_us: None, ..b.clone() }), ..sc.clone() });
+            }
+            if sc.cfg.random_order {
+                let mut c = sc.clone();
+                c.cfg.random_order = false;
+                out.push(c);
+            }
+            return out;
+        }
         for i in 0..sc.parties.len() {
             let mut c = sc.clone();
             c.parties.remove(i);
@@ -510,6 +559,9 @@ impl Property for C11 {
     }
 
     fn signature(sc: &Scenario) -> String {
+        if let Some(b) = &sc.bounce {
+            return format!("bounce tick={} {:?}", sc.cfg.tick_us, b);
+        }
         format!(
             "{} tick={} dur={} {:?}",
             if sc.run_mode { "run" } else { "step" },
@@ -518,4 +570,212 @@ impl Property for C11 {
             sc.parties.iter().map(|p| format!("{}{:?}@{}p{}", if p.client { "c" } else { "h" }, p.fate, p.at_us, p.phase)).collect::<Vec<_>>()
         )
     }
+}
+
+
+/// The bounce family (see `BounceSpec`).
+fn run_bounce(sc: &Scenario, b: &BounceSpec, keep: bool) -> Report {
+    let log = SharedLog::new(keep);
+    let tick = sc.cfg.tick_us;
+    let inc = Rc::new(Cell::new(0u32));
+    // background ticker polls per incarnation (index = incarnation - 1)
+    let ticks: Rc<std::cell::RefCell<Vec<u64>>> = Rc::new(std::cell::RefCell::new(Vec::new()));
+    let client_done = Rc::new(Cell::new(false));
+    let second_done = Rc::new(Cell::new(false));
+    let second_started_us: Rc<Cell<Option<u64>>> = Rc::new(Cell::new(None));
+    let mut violation: Option<Violation> = None;
+    let mut sim = sc.cfg.build();
+    {
+        let (inc, ticks, log, b, second_done, second_started_us) = (inc.clone(), ticks.clone(), log.clone(), b.clone(), second_done.clone(), second_started_us.clone());
+        let v6 = sc.cfg.ipv6;
+        sim.host("h0", move || {
+            inc.set(inc.get() + 1);
+            let k = inc.get();
+            ticks.borrow_mut().push(0);
+            let wild = if v6 { "::" } else { "0.0.0.0" };
+            let (ticks, log, b, second_done, second_started_us) = (ticks.clone(), log.clone(), b.clone(), second_done.clone(), second_started_us.clone());
+            async move {
+                let t = ticks.clone();
+                tokio::task::spawn_local(async move {
+                    loop {
+                        t.borrow_mut()[k as usize - 1] += 1;
+                        tokio::time::sleep(Duration::from_millis(1)).await;
+                    }
+                });
+                if k == 1 {
+                    // a spawned task owns a socket and lives on when the main future returns
+                    let l2 = log.clone();
+                    tokio::task::spawn_local(async move {
+                        let s = turmoil::net::UdpSocket::bind((wild, 9000)).await;
+                        l2.ev(format!("h0.1 spawned task: bind 9000 -> {:?}", s.as_ref().map(|_| ()).map_err(|e| e.kind())));
+                        std::future::pending::<()>().await;
+                        drop(s);
+                    });
+                    match b.first_ok_at_us {
+                        Some(at) => {
+                            tokio::time::sleep(Duration::from_micros(at)).await;
+                            log.ev(format!("h0.1 main returns Ok at elapsed={}us, its tasks stay behind", us(turmoil::elapsed())));
+                            Ok(())
+                        }
+                        None => {
+                            std::future::pending::<()>().await;
+                            Ok(())
+                        }
+                    }
+                } else {
+                    second_started_us.set(Some(us(turmoil::elapsed())));
+                    let s = turmoil::net::UdpSocket::bind((wild, 9000)).await;
+                    log.ev(format!("h0.{k} main: bind 9000 -> {:?}", s.as_ref().map(|_| ()).map_err(|e| e.kind())));
+                    let _s = s.map_err(|e| format!("restart-bind-failed: {e}"))?;
+                    let at = b.second_at_us;
+                    match b.second {
+                        FateKind::Never => {
+                            std::future::pending::<()>().await;
+                            Ok(())
+                        }
+                        FateKind::PanicSpawned => {
+                            tokio::task::spawn_local(async move {
+                                tokio::time::sleep(Duration::from_micros(at)).await;
+                                panic!("fate-panic-0");
+                            });
+                            std::future::pending::<()>().await;
+                            Ok(())
+                        }
+                        FateKind::PanicTokioSpawned => {
+                            tokio::spawn(async move {
+                                tokio::time::sleep(Duration::from_micros(at)).await;
+                                panic!("fate-panic-0");
+                            });
+                            std::future::pending::<()>().await;
+                            Ok(())
+                        }
+                        f => {
+                            tokio::time::sleep(Duration::from_micros(at)).await;
+                            log.ev(format!("h0.{k} fate {f:?} at elapsed={}us", us(turmoil::elapsed())));
+                            second_done.set(true);
+                            match f {
+                                FateKind::Ok => Ok(()),
+                                FateKind::Err => Err("fate-err-0".into()),
+                                _ => panic!("fate-panic-0"),
+                            }
+                        }
+                    }
+                }
+            }
+        });
+    }
+    {
+        let (cd, at, log) = (client_done.clone(), b.client_at_us, log.clone());
+        sim.client("c0", async move {
+            tokio::time::sleep(Duration::from_micros(at)).await;
+            log.ev(format!("c0 finishes Ok at elapsed={}us", us(turmoil::elapsed())));
+            cd.set(true);
+            Ok(())
+        });
+    }
+    let mut frozen_first: Option<u64> = None;
+    let mut bounced_at_step: Option<u32> = None;
+    let mut panicked: Option<(u32, String)> = None;
+    let mut err_seen: Option<(u32, String)> = None;
+    let mut steps_taken = 0u64;
+    let mut sim_cell = Some(sim);
+    for s in 1..=sc.steps {
+        let sim = sim_cell.as_mut().unwrap();
+        if s == b.bounce_before_step {
+            if b.crash_first {
+                sim.crash("h0");
+                log.ev(format!("ctl crash h0 before step {s}"));
+            }
+            sim.bounce("h0");
+            log.ev(format!("ctl bounce h0 before step {s}"));
+            frozen_first = Some(ticks.borrow()[0]);
+            bounced_at_step = Some(s);
+        }
+        let r = catch(|| sim.step());
+        steps_taken = s as u64;
+        match r {
+            Err(p) => {
+                log.ev(format!("step {s} panicked: {p}"));
+                panicked = Some((s, p));
+                break;
+            }
+            Ok(Err(e)) => {
+                log.ev(format!("step {s} -> Err({e})"));
+                err_seen = Some((s, e.to_string()));
+                break;
+            }
+            Ok(Ok(fin)) => {
+                log.ev(format!("step {s} -> Ok({fin}); client done = {}", client_done.get()));
+                if fin != client_done.get() {
+                    violation = Some(Violation::new("StepCompletion", format!("step {s} returned Ok({fin}) but 'every client has finished' is {}", client_done.get())));
+                    break;
+                }
+            }
+        }
+        // the first incarnation is gone once bounce returned: nothing of it is polled again
+        if let Some(f) = frozen_first {
+            let nowc = ticks.borrow()[0];
+            if nowc != f {
+                violation = Some(Violation::new(
+                    "PolledAfterEnd",
+                    format!("a task of h0's first incarnation was polled again after Sim::bounce (before step {}): its ticker went from {f} to {nowc} by step {s}", b.bounce_before_step),
+                ));
+                break;
+            }
+        }
+    }
+    if violation.is_none() {
+        let is_panic = matches!(b.second, FateKind::Panic | FateKind::PanicSpawned | FateKind::PanicTokioSpawned);
+        // step (1-based) in which the second incarnation's fate falls: it started at the beginning of step
+        // `bounce_before_step`; a fate exactly on a boundary may show one step later
+        let due = bounced_at_step.map(|bs| bs as u64 - 1 + b.second_at_us.div_ceil(tick));
+        if let Some((s, p)) = &panicked {
+            if !is_panic {
+                violation = Some(Violation::new("UnexpectedPanic", format!("step {s} panicked without a panic fate: {p}")));
+            } else if let Some(d) = due {
+                if (*s as u64) < d || *s as u64 > d + 1 {
+                    violation = Some(Violation::new("WrongOutcome", format!("the panic fate of the restarted h0 was due in step {d} (or {}), step {s} panicked", d + 1)));
+                }
+            }
+        } else if let Some((s, e)) = &err_seen {
+            let ok = b.second == FateKind::Err && e.starts_with("fate-err-0") && due.map(|d| *s as u64 >= d && *s as u64 <= d + 1).unwrap_or(false);
+            if !ok {
+                violation = Some(Violation::new("SpuriousErr", format!("step {s} returned Err({e}); the restarted h0 has fate {:?} due in step {:?}", b.second, due)));
+            }
+        } else if let Some(d) = due {
+            if d + 1 <= sc.steps as u64 {
+                if is_panic {
+                    violation = Some(Violation::new("PanicSwallowed", format!("the restarted h0 ({:?}) panicked in step {d}, yet {} steps ran without a panic of the caller", b.second, sc.steps)));
+                } else if b.second == FateKind::Err {
+                    violation = Some(Violation::new("ErrorSwallowed", format!("the restarted h0 returned Err in step {d}, yet {} steps ran without step reporting it", sc.steps)));
+                }
+            }
+        }
+    }
+    let sim = sim_cell.take().unwrap();
+    let _ = catch(move || drop(sim));
+    log.tag(&format!("{:?}", b.second));
+    log.tag(if b.crash_first { "crash" } else { "nocrash" });
+    log.tag(if b.first_ok_at_us.is_some() { "first_ok" } else { "first_never" });
+    log.0.borrow_mut().tag_u64(steps_taken);
+    let first_finished_before_bounce = b.first_ok_at_us.map(|a| a.div_ceil(tick) < b.bounce_before_step as u64).unwrap_or(false);
+    let mut rep = Report::from_log(log.take());
+    rep.violation = violation;
+    rep.nontrivial = true;
+    rep.steps = steps_taken;
+    rep.sim_ms = steps_taken * tick / 1000;
+    rep.faults.inc("host_bounce");
+    if b.crash_first {
+        rep.faults.inc("host_crash");
+    }
+    if matches!(b.second, FateKind::Panic | FateKind::PanicSpawned | FateKind::PanicTokioSpawned) {
+        rep.faults.inc("panic_fate");
+        rep.probes.inc("panic_in_restarted_incarnation");
+    }
+    if first_finished_before_bounce && !b.crash_first {
+        rep.probes.inc("finished_host_with_live_tasks_bounced_without_crash");
+    }
+    let _ = second_done;
+    let _ = second_started_us;
+    rep
 }
